@@ -15,6 +15,10 @@ use serde_json::{json, Value};
 
 include!(concat!(env!("OUT_DIR"), "/mods.rs"));
 
+mod fmtbody;
+#[cfg(any(feature = "debug", feature = "display"))]
+mod c16cmd;
+
 type Expander = fn(&syn::DeriveInput) -> Result<proc_macro2::TokenStream, syn::Error>;
 
 trait Output {
@@ -49,6 +53,10 @@ fn derives() -> Vec<(&'static str, &'static str, Expander)> {
 }
 
 static LAST_PANIC: Mutex<Option<(String, String)>> = Mutex::new(None);
+/// derive_more frames (innermost first) of the last panic whose location is outside `impl/src`
+/// (a panic raised inside syn/quote/proc-macro2 on behalf of the expander); used by C18 to map
+/// such a panic back to the calling site.
+static LAST_FRAMES: Mutex<Vec<String>> = Mutex::new(Vec::new());
 
 fn panic_msg(p: &(dyn std::any::Any + Send)) -> String {
     if let Some(s) = p.downcast_ref::<&str>() {
@@ -62,6 +70,7 @@ fn panic_msg(p: &(dyn std::any::Any + Send)) -> String {
 
 fn guarded<F: FnOnce() -> Value + panic::UnwindSafe>(f: F) -> Value {
     *LAST_PANIC.lock().unwrap() = None;
+    LAST_FRAMES.lock().unwrap().clear();
     match panic::catch_unwind(f) {
         Ok(v) => v,
         Err(p) => {
@@ -74,7 +83,12 @@ fn guarded<F: FnOnce() -> Value + panic::UnwindSafe>(f: F) -> Value {
             if msg == "<non-string panic>" && !msg2.is_empty() {
                 msg = msg2;
             }
-            json!({"panic": {"msg": msg, "loc": loc}})
+            let frames = std::mem::take(&mut *LAST_FRAMES.lock().unwrap());
+            if frames.is_empty() {
+                json!({"panic": {"msg": msg, "loc": loc}})
+            } else {
+                json!({"panic": {"msg": msg, "loc": loc, "frames": frames}})
+            }
         }
     }
 }
@@ -231,6 +245,7 @@ fn handle(req: &Value, table: &[(&'static str, &'static str, Expander)]) -> Valu
             let derive = req["derive"].as_str().unwrap_or("").to_string();
             let item = req["item"].as_str().unwrap_or("").to_string();
             let want_summary = req["summary"].as_bool().unwrap_or(true);
+            let want_fmt = req["fmt_bodies"].as_bool().unwrap_or(false);
             let Some((_, _, f)) = table.iter().find(|(n, _, _)| *n == derive) else {
                 return json!({"bad_request": format!("unknown derive {derive}")});
             };
@@ -244,6 +259,9 @@ fn handle(req: &Value, table: &[(&'static str, &'static str, Expander)]) -> Valu
                     let mut o = json!({"ok": t.to_string()});
                     if want_summary {
                         o["items"] = summarize(&t);
+                    }
+                    if want_fmt {
+                        o["fmt_bodies"] = fmtbody::fmt_bodies(&t);
                     }
                     o
                 }
@@ -312,6 +330,11 @@ fn handle(req: &Value, table: &[(&'static str, &'static str, Expander)]) -> Valu
                 }
             })
         }
+        #[cfg(any(feature = "debug", feature = "display"))]
+        "c16_split" => {
+            // C16: tokens + real derive_more split + syn-full split (index ranges), see c16cmd.rs
+            c16cmd::run(req["tokens"].as_str().unwrap_or(""))
+        }
         "tokens" => {
             // lex `src` and echo the flat token-tree structure (used to tie the Coq token model to proc_macro2)
             let src = req["tokens"].as_str().unwrap_or("").to_string();
@@ -337,6 +360,32 @@ fn handle(req: &Value, table: &[(&'static str, &'static str, Expander)]) -> Valu
             }
             json!({"start": start, "cont": cont, "ws": ws})
         }
+        "ident_probe" => {
+            // C18: code points the literal parser accepts in an identifier (unicode-xid tables) but
+            // `proc_macro2::Ident::new` (what `format_ident!` calls) rejects, for a range of code points
+            let lo = req["lo"].as_u64().unwrap_or(0) as u32;
+            let hi = req["hi"].as_u64().unwrap_or(0) as u32;
+            use unicode_xid::UnicodeXID as _;
+            let mut bad_start = Vec::new();
+            let mut bad_cont = Vec::new();
+            for c in lo..hi {
+                if let Some(ch) = char::from_u32(c) {
+                    if ch.is_xid_start() {
+                        let s = ch.to_string();
+                        if panic::catch_unwind(|| proc_macro2::Ident::new(&s, proc_macro2::Span::call_site())).is_err() {
+                            bad_start.push(c);
+                        }
+                    }
+                    if ch.is_xid_continue() {
+                        let s = format!("a{ch}");
+                        if panic::catch_unwind(|| proc_macro2::Ident::new(&s, proc_macro2::Span::call_site())).is_err() {
+                            bad_cont.push(c);
+                        }
+                    }
+                }
+            }
+            json!({"bad_start": bad_start, "bad_cont": bad_cont})
+        }
         _ => json!({"bad_request": format!("unknown cmd {cmd}")}),
     }
 }
@@ -361,6 +410,27 @@ fn main() {
             .map(|l| format!("{}:{}", l.file(), l.line()))
             .unwrap_or_else(|| "?".into());
         let msg = panic_msg(info.payload());
+        if !loc.contains("/impl/src/") {
+            // raised inside a dependency: record which derive_more functions are on the stack
+            let bt = std::backtrace::Backtrace::force_capture().to_string();
+            let mut frames = Vec::new();
+            for l in bt.lines() {
+                let l = l.trim();
+                let sym = l.splitn(2, ": ").nth(1).unwrap_or("");
+                if sym.contains("dm_inproc::")
+                    && !sym.contains("dm_inproc::main")
+                    && !sym.contains("dm_inproc::handle")
+                    && !sym.contains("dm_inproc::guarded")
+                    && !sym.contains("dm_inproc::derives")
+                {
+                    frames.push(sym.to_string());
+                    if frames.len() >= 6 {
+                        break;
+                    }
+                }
+            }
+            *LAST_FRAMES.lock().unwrap() = frames;
+        }
         *LAST_PANIC.lock().unwrap() = Some((loc, msg));
     }));
     let table = derives();
